@@ -150,6 +150,12 @@ def finish(ctx: Ctx, level: str = "other") -> int:
         if sem.STATS:
             ctx.analysed["reference_equivalence"] = {
                 rel: {k: v for k, v in st.items() if v and k != "identical"} for rel, st in sem.STATS.items()}
+        if ch:
+            eq = sum(len(st.get("equivalent", [])) for st in sem.STATS.values())
+            df = sum(len(st.get("different", [])) + len(st.get("gave_up", [])) for st in sem.STATS.values())
+            print(f"NOTE: property={ctx.prop} the analysed tree differs from the reference snapshot {str(ref.get('commit'))[:7]} in {len(ch)} file(s) "
+                  f"({', '.join(ch[:4])}{' ...' if len(ch) > 4 else ''}); among the modules consulted {eq} changed function(s) were proven equivalent to "
+                  f"their reference form, {df} are analysed as they stand")
     except Exception:       # noqa: BLE001 - evidence only
         pass
     checked = [o for o in ctx.obs if o.verdict != UNVERIFIED]
